@@ -79,6 +79,9 @@ type Config struct {
 	// ConstCalc: the creating/writing calculators are built with the constant-duration constructors
 	// (otter.ExpiryCreating(d) ... instead of the ...Func forms); the duration tables are constant then.
 	ConstCalc bool `json:"const_calc,omitempty"`
+	// PlainRecorder (with Stats): the StatsRecorder is a user-written stats.Recorder without a Snapshot method
+	// (Cache.Stats() is empty then; the recorder's own tallies are what is judged).
+	PlainRecorder bool `json:"plain_recorder,omitempty"`
 }
 
 // Layout returns the node layout name the configuration selects.
@@ -126,6 +129,7 @@ func (m *ManualClock) NowNano() int64 {
 	}
 	return n
 }
+
 // Tick returns the harness-owned tick channel (nil unless TickCh is set: the cache's periodic clean-up never fires then).
 func (m *ManualClock) Tick(time.Duration) <-chan time.Time { return m.TickCh }
 func (m *ManualClock) Set(n int64)                         { m.now.Store(n) }
@@ -318,6 +322,7 @@ type Env struct {
 	Hooks  *Hooks
 	Logger *RecLogger
 	Stats  *stats.Counter
+	Plain  *PlainRecorder
 
 	evMu     sync.Mutex
 	EvAtomic []Ev
@@ -423,11 +428,39 @@ func BuildEnv(cfg Config, eo EnvOpts) *Env {
 		o.RefreshCalculator = customRefresh{h}
 	}
 	if cfg.Stats {
-		e.Stats = stats.NewCounter()
-		o.StatsRecorder = e.Stats
+		if cfg.PlainRecorder {
+			e.Plain = &PlainRecorder{}
+			o.StatsRecorder = e.Plain
+		} else {
+			e.Stats = stats.NewCounter()
+			o.StatsRecorder = e.Stats
+		}
 	}
 	e.C = otter.Must(o)
 	return e
+}
+
+// PlainRecorder is a minimal user-written stats.Recorder: it implements the five Record methods and nothing else.
+type PlainRecorder struct {
+	hits, misses, evictions, evictionWeight, loadSuccesses, loadFailures atomic.Uint64
+}
+
+func (p *PlainRecorder) RecordHits(count int)   { p.hits.Add(uint64(count)) }
+func (p *PlainRecorder) RecordMisses(count int) { p.misses.Add(uint64(count)) }
+func (p *PlainRecorder) RecordEviction(weight uint32) {
+	p.evictions.Add(1)
+	p.evictionWeight.Add(uint64(weight))
+}
+func (p *PlainRecorder) RecordLoadSuccess(time.Duration) { p.loadSuccesses.Add(1) }
+func (p *PlainRecorder) RecordLoadFailure(time.Duration) { p.loadFailures.Add(1) }
+
+// StatsSnapshot returns the statistics as the configured recorder saw them.
+func (e *Env) StatsSnapshot() stats.Stats {
+	if p := e.Plain; p != nil {
+		return stats.Stats{Hits: p.hits.Load(), Misses: p.misses.Load(), Evictions: p.evictions.Load(), EvictionWeight: p.evictionWeight.Load(),
+			LoadSuccesses: p.loadSuccesses.Load(), LoadFailures: p.loadFailures.Load()}
+	}
+	return e.C.Stats()
 }
 
 // TakeEvents returns and clears the recorded events.
